@@ -141,7 +141,15 @@ def check_case(case) -> Result:
     r.label(backend, f"n{n}", f"bad{len(bad)}" if len(bad) < n else "all_bad", "good0" if not good else ("good1" if len(good) == 1 else "good>=2"),
             "leak" if leak else "noleak", ("reorder_on" if case["reorder"] else "reorder_off") if backend == "mps" else "sv",
             "scaled_interactions" if scaled else "real_interactions")
-    full, fids, cfg = _run(backend, seqc, mask=mask, reorder=case["reorder"], leak=leak, U=U, dt=case["dt"], seed=case["seed"])
+    try:
+        full, fids, cfg = _run(backend, seqc, mask=mask, reorder=case["reorder"], leak=leak, U=U, dt=case["dt"], seed=case["seed"])
+    except common.CutRaised as e:
+        if backend == "mps" and len(good) < 2 and isinstance(e.exc, ValueError) and e.frame.endswith("mps.py:make"):
+            # specific known finding (see known_findings.txt); any other crash keeps its own kind
+            r.fail("fewer_than_two_good_atoms:emu_mps", f"mask {mask}: {e}")
+            r.nontrivial = bool(bad and good)
+            return r
+        raise
     if tuple(full.atom_order) != tuple(ids):
         r.fail("atom_order_not_register_order", f"{full.atom_order} vs {ids}")
     T = float(full.total_duration)
